@@ -104,6 +104,7 @@ class LabChainObj(AutoParameterObject, ChainObject):
     def init_chain(self, chain):
         self.inited = True
         self.saw_tasks = len(chain.tasks) > 0       # a chain object may look at the chain's tasks: they exist when it is initialised
+        self._chain = chain                         # ... and may keep the chain to consult it later (while a task runs)
 
 
 class LabObjPlain(ParameterObject):
@@ -211,7 +212,8 @@ def received_canon(v):
     if isinstance(v, LabObjSet):
         return ['obj', 'LabObjSet', {'tags': sorted(v.tags)}]
     if isinstance(v, LabChainObj):
-        return ['obj', 'LabChainObj', {'a': received_canon(v.a), 'inited': bool(v.inited), 'saw_tasks': bool(v.saw_tasks)}]
+        return ['obj', 'LabChainObj', {'a': received_canon(v.a), 'inited': bool(v.inited), 'saw_tasks': bool(v.saw_tasks),
+                                      'chain_usable_now': (len(v._chain.tasks) > 0) if getattr(v, '_chain', None) is not None else False}]
     if isinstance(v, list):
         return ['l', [received_canon(x) for x in v]]
     if isinstance(v, dict):
